@@ -1,27 +1,12 @@
 import OH.Proofs.EvalSpecDated
 /-
 C01 refinement, dated ranges, class (a): the start carries a year (`2020 Dec 24-Jan 2`,
-`2024 easter-2024 Dec 31`): the range is a single interval (`single_interval_from_bounds`).
+`2024 easter-2024 Dec 31`): the range is a single interval (`single_interval_from_bounds`); a yearless
+end is looked for on the years around the year of `start - end offset`.
 -/
 namespace OH.Proofs.EvalSpec
 open OH.Model OH.Model.Cal
 open OH.Spec (shift dateInstance exactInstance specYear datedOk candidateYears yearsNear yearSpan isFixedDate)
-
-/-- days `n` apart lie in years at most `n / 365 + 1` apart -/
-theorem year_dist {a b p q : Int} (hp : InY a p) (hq : InY b q) (n : Nat) (h1 : p - q ≤ n) (h2 : q - p ≤ n) :
-    a - b ≤ n / 365 + 1 ∧ b - a ≤ n / 365 + 1 := by
-  unfold InY at *
-  constructor
-  · by_cases h : a ≤ b
-    · omega
-    · have := (yearStart_add_le (b + 1) (a - b - 1).toNat).1
-      rw [show b + 1 + ((a - b - 1).toNat : Int) = a by omega] at this
-      omega
-  · by_cases h : b ≤ a
-    · omega
-    · have := (yearStart_add_le (a + 1) (b - a - 1).toNat).1
-      rw [show a + 1 + ((b - a - 1).toNat : Int) = b by omega] at this
-      omega
 
 /-- a well-formed date has an instance on the year it carries -/
 theorem proj_some_own_year (ds : DateSpec) (o : DateOffset) (after : Bool) (hwf : ds.wf = true)
@@ -80,12 +65,6 @@ theorem mem_candidateYears (s e : DateSpec) (w : Nat) (d k : Int) :
 
 theorem dateYear_eq (ds : DateSpec) : dateYear ds = specYear ds := by cases ds <;> rfl
 
-theorem proj_eq_some {ds : DateSpec} {o : DateOffset} {after : Bool} {k P : Int}
-    (h : proj ds o after k = some P) : ∃ p, dateInstance ds k after = some p ∧ shift o p = P := by
-  unfold proj at h
-  rw [Option.map_eq_some_iff] at h
-  exact h
-
 /-- the model's projection step `date_on_year` then `offset.apply` on one year -/
 theorem project_ok {ds : DateSpec} {o : DateOffset} (h : BoundOK ds o) (after : Bool) (k : Int)
     (hk : 0 ≤ k ∧ k ≤ 20000) (hyr : specYear ds = none ∨ specYear ds = some k) :
@@ -140,51 +119,44 @@ theorem dated_year_year_eq (s : DateSpec) (so : DateOffset) (e : DateSpec) (eo :
 
 /-! ### (a2) the start carries a year, the end does not: the end is its first occurrence at or after the start -/
 
-/-- the interval `[S, stop]`, `stop` = first end instance at or after `S` among the years around `S`,
-against "no end instance, on any candidate year, between `S` and `d`" -/
-theorem year_end_iff (E : Int → Int) (S d y0 : Int) (hS : InY y0 S) (cand : Int → Prop)
-    (hc0 : cand y0) (hc1 : cand (y0 + 1)) (hE : ∀ k, cand k → InY k (E k)) :
-    (S ≤ d ∧ d ≤ (if E y0 ≥ S then E y0 else E (y0 + 1))) ↔
-      (S ≤ d ∧ ∀ k, cand k → ¬ (S ≤ E k ∧ E k < d)) := by
-  have e0 := hE y0 hc0
-  have e1 := hE (y0 + 1) hc1
-  have h01 : E y0 < E (y0 + 1) := inY_lt (by omega) e0 e1
-  have hS1 : S < E (y0 + 1) := inY_lt (by omega) hS e1
+/-- the first of four successive end instances that is not before `S` -/
+theorem find_end4 (E : Int → Int) (S y0 : Int) (hlo : E (y0 - 2) < S) (hhi : S ≤ E (y0 + 2)) :
+    ∃ k, y0 - 1 ≤ k ∧ k ≤ y0 + 2 ∧
+      [E (y0 - 1), E y0, E (y0 + 1), E (y0 + 2)].find? (fun x => decide (x ≥ S)) = some (E k) ∧
+      S ≤ E k ∧ E (k - 1) < S := by
+  simp only [List.find?_cons]
+  by_cases h0 : E (y0 - 1) ≥ S
+  · exact ⟨y0 - 1, by omega, by omega, by simp [h0], h0, by rw [show y0 - 1 - 1 = y0 - 2 by omega]; exact hlo⟩
+  · by_cases h1 : E y0 ≥ S
+    · exact ⟨y0, by omega, by omega, by simp [h0, h1], h1, by omega⟩
+    · by_cases h2 : E (y0 + 1) ≥ S
+      · exact ⟨y0 + 1, by omega, by omega, by simp [h0, h1, h2], h2,
+          by rw [show y0 + 1 - 1 = y0 by omega]; omega⟩
+      · exact ⟨y0 + 2, by omega, by omega, by simp [h0, h1, h2, hhi], hhi,
+          by rw [show y0 + 2 - 1 = y0 + 1 by omega]; omega⟩
+
+/-- the interval `[S, E k]`, `E k` the first end instance at or after `S`, against "no end instance, on any
+candidate year, between `S` and `d`" -/
+theorem year_end_iff (E : Int → Int) (S d k lo hi : Int) (mE : StepMono E lo hi) (hk : lo < k ∧ k ≤ hi)
+    (h1 : S ≤ E k) (h2 : E (k - 1) < S) (cand : Int → Prop) (hck : cand k)
+    (hc : ∀ j, cand j → lo ≤ j ∧ j ≤ hi) :
+    (S ≤ d ∧ d ≤ E k) ↔ (S ≤ d ∧ ∀ j, cand j → ¬ (S ≤ E j ∧ E j < d)) := by
+  have ME := mono_of_step E lo hi mE
   constructor
   · rintro ⟨hle, hstop⟩
-    refine ⟨hle, fun k hk => ?_⟩
-    have ek := hE k hk
-    by_cases hk0 : k < y0
-    · have := inY_lt hk0 ek hS; omega
-    · by_cases hk1 : y0 + 1 < k
-      · have := inY_lt hk1 e1 ek
-        split at hstop <;> omega
-      · have : k = y0 ∨ k = y0 + 1 := by omega
-        rcases this with rfl | rfl
-        · split at hstop <;> omega
-        · split at hstop <;> omega
+    refine ⟨hle, fun j hj => ?_⟩
+    have hjr := hc j hj
+    by_cases hjk : j < k
+    · have := (ME j (k - 1) hjr.1 (by omega) (by omega)).1; omega
+    · have := (ME k j (by omega) (by omega) hjr.2).1; omega
   · rintro ⟨hle, hno⟩
-    refine ⟨hle, ?_⟩
-    have n0 := hno y0 hc0
-    have n1 := hno (y0 + 1) hc1
-    split <;> omega
+    have := hno k hck
+    exact ⟨hle, by omega⟩
 
-theorem find_end (E : Int → Int) (S y0 : Int) (hS : InY y0 S)
-    (em : InY (y0 - 1) (E (y0 - 1))) (e1 : InY (y0 + 1) (E (y0 + 1))) :
-    [E (y0 - 1), E y0, E (y0 + 1), E (y0 + 2)].find? (fun x => decide (x ≥ S))
-      = some (if E y0 ≥ S then E y0 else E (y0 + 1)) := by
-  have a : ¬ E (y0 - 1) ≥ S := by have := inY_lt (show y0 - 1 < y0 by omega) em hS; omega
-  have b : E (y0 + 1) ≥ S := by have := inY_lt (show y0 < y0 + 1 by omega) hS e1; omega
-  simp only [List.find?_cons, a, decide_false]
-  by_cases h : E y0 ≥ S
-  · simp [h]
-  · simp [h, b]
-
-/-- Class (a2): the start carries a year and the end does not. -/
+/-- Class (a2): the start carries a year and the end does not — any offsets within ±100 000 days. -/
 theorem dated_year_yearless_eq (s : DateSpec) (so : DateOffset) (e : DateSpec) (eo : DateOffset) (d : Int)
     (hs : BoundOK s so) (he : BoundOK e eo) (sy : Int) (hsy : specYear s = some sy)
-    (hey : specYear e = none) (h1 : dateStart - 1 ≤ d) (h2 : d < dateEnd)
-    (hE : ∀ k ∈ candidateYears s e (yearSpan so eo) d, ∀ p, proj e eo false k = some p → InY k p) :
+    (hey : specYear e = none) (h1 : dateStart - 1 ≤ d) (h2 : d < dateEnd) :
     MonthdayRange.filter (.date s so e eo) d = .ok (datedOk s so e eo d) := by
   obtain ⟨S, hS, hsy1, hsy2⟩ := proj_some_own_year s so true hs.wf sy hsy
   obtain ⟨s0, hs0, hSe⟩ := proj_eq_some hS
@@ -192,56 +164,79 @@ theorem dated_year_yearless_eq (s : DateSpec) (so : DateOffset) (e : DateSpec) (
   have hw := yearSpan_bounds so eo hs.small he.small
   have hss := hs.small
   have hes := he.small
-  -- the year of the shifted start is close to the year it carries
+  -- the shifted start
   have hs0y : InY sy s0 := dateInstance_year s sy true hs.wf (by omega) (by unfold maxYear; omega) s0 hs0
-  have hSy : InY (year S) S := inY_year S
   have hsb := inst_shift_bounds hs (y := sy) (by omega) hs0
   rw [hSe] at hsb
-  have hdist := year_dist hSy hs0y (so.days.natAbs + 6) (by omega) (by omega)
-  generalize hy0 : year S = y0 at *
+  have hs0r := inYear_range (y := sy) (by omega) hs0y
+  -- the centre of the search for the end
+  have ey0 := yearBeforeOffset_eq S eo he.small (by omega)
+  have iS : InY (year (S - eo.days)) (S - eo.days) := inY_year _
+  have hdist := year_dist iS hs0y (so.days.natAbs + eo.days.natAbs + 6) (by omega) (by omega)
+  generalize year (S - eo.days) = y0 at *
   have hwdef : yearSpan so eo = 3 + (so.days.natAbs + eo.days.natAbs) / 365 := rfl
   generalize hwg : yearSpan so eo = w at *
-  have hnear : sy - w + 1 ≤ y0 ∧ y0 + 1 ≤ sy + w := by omega
-  -- total projection of the end
-  let E : Int → Int := fun k => (proj e eo false k).getD 0
+  -- the projections of the end
+  have mE := projT_stepMono he hey false
+  have posE := fun k (hk : 0 ≤ k ∧ k ≤ 20000) => projT_pos he hey false k hk
+  have rE := pos_range e he.wf
+  generalize hEdef : projT e eo false = E at *
   have pE : ∀ k, 0 ≤ k → k ≤ 20000 → proj e eo false k = some (E k) := by
-    intro k hk1 hk2
-    obtain ⟨p, hp⟩ := proj_some_yearless e eo false he.wf hey k ⟨hk1, hk2⟩
-    simp only [E, hp, Option.getD_some]
-  have cand_range : ∀ k ∈ candidateYears s e w d, 0 ≤ k ∧ k ≤ 20000 := by
-    intro k hk
-    rw [mem_candidateYears, hsy, hey] at hk
-    simp only [Option.some.injEq, exists_eq_left', reduceCtorEq, false_and, exists_false, or_false] at hk
+    intro k a b; rw [← hEdef]; exact proj_eq_projT e eo false he.wf hey k ⟨a, b⟩
+  have hlo : E (y0 - 2) < S := by
+    rw [← hEdef]; exact projT_lt_of_year he hey false S y0 (y0 - 2) iS (by omega) (by omega)
+  have hhi : S ≤ E (y0 + 2) := by
+    have : S < E (y0 + 2) := by
+      rw [← hEdef]; exact lt_projT_of_year he hey false S y0 (y0 + 2) iS (by omega) (by omega)
     omega
-  have candE : ∀ k, k ∈ candidateYears s e w d → InY k (E k) := by
-    intro k hk
-    exact hE k hk _ (pE k (cand_range k hk).1 (cand_range k hk).2)
-  have cnear : ∀ k, sy - w ≤ k → k ≤ sy + w → k ∈ candidateYears s e w d := by
-    intro k a b
+  obtain ⟨k, hk1, hk2, hfind, hSk, hkS⟩ := find_end4 E S y0 hlo hhi
+  -- the year of that end is one of the candidate years
+  have hknear : sy - w ≤ k ∧ k ≤ sy + w := by
+    have p1 := posE (k - 1) (by omega)
+    have p2 := posE k (by omega)
+    unfold InY at hs0y
+    simp only [shiftLo, shiftHi] at p1 p2
+    constructor
+    · by_cases hc : k + ((so.days.natAbs + eo.days.natAbs) / 365 + 4 : Nat) ≤ sy
+      · have a := (yearStart_add_le k ((so.days.natAbs + eo.days.natAbs) / 365 + 4)).1
+        have b := yearStart_le (a := k + ((so.days.natAbs + eo.days.natAbs) / 365 + 4 : Nat)) (b := sy) hc
+        omega
+      · omega
+    · by_cases hc : sy + 1 + ((so.days.natAbs + eo.days.natAbs) / 365 + 2 : Nat) ≤ k - 1
+      · have a := (yearStart_add_le (sy + 1) ((so.days.natAbs + eo.days.natAbs) / 365 + 2)).1
+        have b := yearStart_le (a := sy + 1 + ((so.days.natAbs + eo.days.natAbs) / 365 + 2 : Nat)) (b := k - 1) hc
+        omega
+      · omega
+  have cand_range : ∀ j ∈ candidateYears s e w d, 0 ≤ j ∧ j ≤ 20000 := by
+    intro j hj
+    rw [mem_candidateYears, hsy, hey] at hj
+    simp only [Option.some.injEq, exists_eq_left', reduceCtorEq, false_and, exists_false, or_false] at hj
+    omega
+  have cnear : ∀ j, sy - w ≤ j → j ≤ sy + w → j ∈ candidateYears s e w d := by
+    intro j a b
     rw [mem_candidateYears, hsy]; right; left; exact ⟨sy, rfl, a, b⟩
   -- the model
   obtain ⟨a1, a2⟩ := project_ok hs true sy (by omega) (Or.inr hsy)
-  have fe : firstEndFrom e eo S [y0 - 1, y0, y0 + 1, y0 + 2]
-      = .ok (some (if E y0 ≥ S then E y0 else E (y0 + 1))) := by
+  have fe : firstEndFrom e eo S [y0 - 1, y0, y0 + 1, y0 + 2] = .ok (some (E k)) := by
     rw [firstEndFrom_eq he S _ (by
-      intro k hk; simp only [List.mem_cons, List.not_mem_nil, or_false] at hk
+      intro j hj; simp only [List.mem_cons, List.not_mem_nil, or_false] at hj
       exact ⟨by omega, Or.inl hey⟩)]
     simp only [List.filterMap_cons, List.filterMap_nil, pE (y0 - 1) (by omega) (by omega),
       pE y0 (by omega) (by omega), pE (y0 + 1) (by omega) (by omega), pE (y0 + 2) (by omega) (by omega)]
-    rw [find_end E S y0 hSy (candE _ (cnear _ (by omega) (by omega))) (candE _ (cnear _ (by omega) (by omega)))]
-  have si : singleInterval s so e eo = .ok (some (S, if E y0 ≥ S then E y0 else E (y0 + 1))) := by
+    rw [hfind]
+  have si : singleInterval s so e eo = .ok (some (S, E k)) := by
     unfold singleInterval
-    simp only [dateYear_eq, hsy, hey, a1, hs0, a2 s0 hs0, hSe, hy0, ok_bind, pure_eq_ok, fe]
+    simp only [dateYear_eq, hsy, hey, a1, hs0, a2 s0 hs0, hSe, ey0, ok_bind, pure_eq_ok, fe]
   have hns : ¬ (s = e ∧ isFixedDate s = true) := by
     rintro ⟨rfl, _⟩; rw [hsy] at hey; cases hey
   rw [filter_of_interval s so e eo d hns _ si]
   congr 1
   rw [Bool.eq_iff_iff, datedOk_range_iff s so e eo d hns]
   simp only [Bool.and_eq_true, decide_eq_true_eq]
-  rw [year_end_iff E S d y0 hSy (· ∈ candidateYears s e w d) (cnear _ (by omega) (by omega))
-    (cnear _ (by omega) (by omega)) candE]
+  rw [year_end_iff E S d k 0 20000 mE (by omega) hSk hkS (· ∈ candidateYears s e w d)
+    (cnear k hknear.1 hknear.2) cand_range]
   -- the specification
-  have cpos : ∀ k ∈ candidateYears s e w d, 0 ≤ k := fun k hk => (cand_range k hk).1
+  have cpos : ∀ j ∈ candidateYears s e w d, 0 ≤ j := fun j hj => (cand_range j hj).1
   have mS := mem_filterMap_proj_year s so true sy S hsy hS _ cpos (cnear sy (by omega) (by omega))
   have mS' : ∀ x, x ∈ specStarts s so e eo d ↔ x = S := by
     intro x; rw [specStarts_eq_filterMap, hwg]; exact mS x
@@ -250,14 +245,14 @@ theorem dated_year_yearless_eq (s : DateSpec) (so : DateOffset) (e : DateSpec) (
   · rintro ⟨hle, hno⟩
     refine ⟨hle, fun x hx => ?_⟩
     rw [specEnds_eq_filterMap, hwg, List.mem_filterMap] at hx
-    obtain ⟨k, hk, hp⟩ := hx
-    rw [pE k (cand_range k hk).1 (cand_range k hk).2] at hp
+    obtain ⟨j, hj, hp⟩ := hx
+    rw [pE j (cand_range j hj).1 (cand_range j hj).2] at hp
     cases hp
-    exact hno k hk
+    exact hno j hj
   · rintro ⟨hle, hno⟩
-    refine ⟨hle, fun k hk => ?_⟩
+    refine ⟨hle, fun j hj => ?_⟩
     apply hno
     rw [specEnds_eq_filterMap, hwg, List.mem_filterMap]
-    exact ⟨k, hk, pE k (cand_range k hk).1 (cand_range k hk).2⟩
+    exact ⟨j, hj, pE j (cand_range j hj).1 (cand_range j hj).2⟩
 
 end OH.Proofs.EvalSpec
